@@ -111,3 +111,297 @@ pub proof fn lemma_erase_eq_terms<'a>(t1: Term<'a>, t2: Term<'a>)
         }
     }
 }
+
+// the children of a term whose free variables are below c have theirs below c (+ the binders crossed)
+pub proof fn lemma_term_kids_closed<'a>(t: Term<'a>, c: nat)
+    requires s_closed_at(view(t), c), !(t.variant is Unifier)
+    ensures
+        match t.variant {
+            Variable(_, i) => i < c,
+            Lambda(_, _, x, y) | Pi(_, _, x, y) => s_closed_at(view(*x), c) && s_closed_at(view(*y), c + 1),
+            Application(x, y) | Sum(x, y) | Difference(x, y) | Product(x, y) | Quotient(x, y)
+            | LessThan(x, y) | LessThanOrEqualTo(x, y) | EqualTo(x, y) | GreaterThan(x, y) | GreaterThanOrEqualTo(x, y)
+                => s_closed_at(view(*x), c) && s_closed_at(view(*y), c),
+            Negation(x) => s_closed_at(view(*x), c),
+            If(x, y, z) => s_closed_at(view(*x), c) && s_closed_at(view(*y), c) && s_closed_at(view(*z), c),
+            Let(defs, body) => s_closed_at(view(*body), c + defs@.len()) && forall|j: int| 0 <= j < defs@.len() ==> s_closed_at(view(*(#[trigger] defs@[j]).1), c + defs@.len()) && s_closed_at(view(*defs@[j].2), c + defs@.len()),
+            _ => true,
+        },
+{
+    broadcast use group_fv;
+    match t.variant {
+        Variable(_, i) => {
+            if i >= c { assert(s_has_fv(view(t), c, (i - c) as nat)); }
+        }
+        Let(defs, body) => {
+            lemma_let_kids(t, defs, body);
+            let kids = kids_of(t);
+            let m = defs@.len();
+            lemma_closed_kids(Kind::Let, kids, c);
+            assert(s_closed_at(kids[2 * m as int], c + binds(Kind::Let, kids.len(), 2 * m as int)));
+            assert forall|j: int| 0 <= j < defs@.len() implies s_closed_at(view(*(#[trigger] defs@[j]).1), c + m) && s_closed_at(view(*defs@[j].2), c + m) by {
+                assert(s_closed_at(kids[j], c + binds(Kind::Let, kids.len(), j)));
+                assert(s_closed_at(kids[j + m], c + binds(Kind::Let, kids.len(), j + m)));
+            }
+        }
+        _ => {
+            let k = kind_of(t.variant);
+            let kids = kids_of(t);
+            assert(view(t) == STerm::Node(k, kids));
+            lemma_closed_kids(k, kids, c);
+            if kids.len() >= 1 { assert(s_closed_at(kids[0], c + binds(k, kids.len(), 0))); }
+            if kids.len() >= 2 { assert(s_closed_at(kids[1], c + binds(k, kids.len(), 1))); }
+            if kids.len() >= 3 { assert(s_closed_at(kids[2], c + binds(k, kids.len(), 2))); }
+        }
+    }
+}
+
+// whatever m reduces to, t reduces to (used before a tail call whose result is not named)
+pub proof fn lemma_rr_trans_all(t: STerm, m: STerm)
+    requires s_rr(t, m)
+    ensures forall|u: STerm| #[trigger] s_rr(m, u) ==> s_rr(t, u)
+{
+    assert forall|u: STerm| #[trigger] s_rr(m, u) implies s_rr(t, u) by { lemma_rr_trans(t, m, u); }
+}
+
+// the arithmetic / comparison arms of the normaliser: both operands are normalised, then the primitive fires if it can
+pub proof fn lemma_norm_binary(k: Kind, a: STerm, b: STerm, a2: STerm, b2: STerm)
+    requires is_binary(k), k != Kind::App, s_rr(a, a2), s_rr(b, b2), s_whnf(a2), s_whnf(b2)
+    ensures
+        s_prim(k, a2, b2) is Some ==> s_rr(STerm::Node(k, s2(a, b)), s_prim(k, a2, b2).unwrap()) && s_whnf(s_prim(k, a2, b2).unwrap()),
+        s_prim(k, a2, b2) is None ==> s_rr(STerm::Node(k, s2(a, b)), STerm::Node(k, s2(a2, b2))) && s_whnf(STerm::Node(k, s2(a2, b2))),
+{
+    lemma_rr_cong2(k, a, b, a2, b2);
+    lemma_whnf2(k, a2, b2);
+    if s_prim(k, a2, b2) is Some {
+        lemma_whnf_value(s_prim(k, a2, b2).unwrap());
+        lemma_root_prim(k, a2, b2, s_prim(k, a2, b2).unwrap());
+        lemma_rr_trans(STerm::Node(k, s2(a, b)), STerm::Node(k, s2(a2, b2)), s_prim(k, a2, b2).unwrap());
+    }
+}
+
+pub proof fn lemma_norm_neg(a: STerm, a2: STerm)
+    requires s_rr(a, a2), s_whnf(a2)
+    ensures
+        lit_of(a2) is Some ==> s_rr(STerm::Node(Kind::Neg, s1(a)), s_lit(-lit_of(a2).unwrap())) && s_whnf(s_lit(-lit_of(a2).unwrap())),
+        lit_of(a2) is None ==> s_rr(STerm::Node(Kind::Neg, s1(a)), STerm::Node(Kind::Neg, s1(a2))) && s_whnf(STerm::Node(Kind::Neg, s1(a2))),
+{
+    lemma_rr_cong1(Kind::Neg, a, a2);
+    lemma_whnf1(a2);
+    if lit_of(a2) is Some {
+        lemma_whnf_value(s_lit(-lit_of(a2).unwrap()));
+        lemma_root_neg(a2, lit_of(a2).unwrap());
+        lemma_rr_trans(STerm::Node(Kind::Neg, s1(a)), STerm::Node(Kind::Neg, s1(a2)), s_lit(-lit_of(a2).unwrap()));
+    }
+}
+
+pub proof fn lemma_norm_if(c: STerm, a: STerm, b: STerm, c2: STerm)
+    requires s_rr(c, c2), s_whnf(c2)
+    ensures
+        c2 is Node && c2->Node_0 == Kind::True ==> forall|u: STerm| #[trigger] s_rr(a, u) ==> s_rr(STerm::Node(Kind::If, s3(c, a, b)), u),
+        c2 is Node && c2->Node_0 == Kind::False ==> forall|u: STerm| #[trigger] s_rr(b, u) ==> s_rr(STerm::Node(Kind::If, s3(c, a, b)), u),
+        !(c2 is Node && (c2->Node_0 == Kind::True || c2->Node_0 == Kind::False)) ==>
+            s_rr(STerm::Node(Kind::If, s3(c, a, b)), STerm::Node(Kind::If, s3(c2, a, b))) && s_whnf(STerm::Node(Kind::If, s3(c2, a, b))),
+{
+    let t = STerm::Node(Kind::If, s3(c, a, b));
+    let t2 = STerm::Node(Kind::If, s3(c2, a, b));
+    lemma_rr_refl(a);
+    lemma_rr_refl(b);
+    lemma_rr_cong3(Kind::If, c, a, b, c2, a, b);
+    lemma_whnf3(c2, a, b);
+    lemma_root_if(c2, a, b);
+    if c2 is Node && c2->Node_0 == Kind::True {
+        lemma_rr_trans(t, t2, a);
+        lemma_rr_trans_all(t, a);
+    }
+    if c2 is Node && c2->Node_0 == Kind::False {
+        lemma_rr_trans(t, t2, b);
+        lemma_rr_trans_all(t, b);
+    }
+}
+
+// the application arm: the head is normalised; a function is applied to the UNEVALUATED argument
+pub proof fn lemma_norm_app(f: STerm, a: STerm, f2: STerm, r: STerm)
+    requires s_rr(f, f2), s_whnf(f2)
+    ensures
+        s_prim(Kind::App, f2, a) == Some(r) ==> forall|u: STerm| #[trigger] s_rr(r, u) ==> s_rr(STerm::Node(Kind::App, s2(f, a)), u),
+        s_prim(Kind::App, f2, a) is None ==> s_rr(STerm::Node(Kind::App, s2(f, a)), STerm::Node(Kind::App, s2(f2, a))) && s_whnf(STerm::Node(Kind::App, s2(f2, a))),
+{
+    let t = STerm::Node(Kind::App, s2(f, a));
+    let t2 = STerm::Node(Kind::App, s2(f2, a));
+    lemma_rr_refl(a);
+    lemma_rr_cong2(Kind::App, f, a, f2, a);
+    lemma_whnf2(Kind::App, f2, a);
+    if s_prim(Kind::App, f2, a) == Some(r) {
+        lemma_root_prim(Kind::App, f2, a, r);
+        lemma_rr_trans(t, t2, r);
+        lemma_rr_trans_all(t, r);
+    }
+}
+
+// beta reduction keeps the overflow guard (with room) and never frees a variable
+pub proof fn lemma_beta_facts(body: STerm, arg: STerm, l: nat)
+    requires s_ok(body, 1, HB() as nat), s_ok(arg, 0, HB() as nat), s_closed_at(body, l + 1), s_closed_at(arg, l)
+    ensures
+        s_ok(body, 0, BOUND() as nat), s_ok(arg, 0, BOUND() as nat),
+        s_ok(s_open(body, 0, arg, 0), 0, BOUND() as nat),
+        s_closed_at(s_open(body, 0, arg, 0), l),
+{
+    lemma_ok_weaken(body, 1, HB() as nat, 0, HB() as nat);
+    lemma_ok_weaken(body, 1, HB() as nat, 0, BOUND() as nat);
+    lemma_ok_weaken(arg, 0, HB() as nat, 0, BOUND() as nat);
+    lemma_ok_open(body, 0, HB() as nat, 0, arg, HB() as nat, 0, 0);
+    lemma_ok_weaken(s_open(body, 0, arg, 0), 0, (3 * HB()) as nat, 0, BOUND() as nat);
+    lemma_ok_hole_free(body, 1, HB() as nat);
+    lemma_ok_hole_free(arg, 0, HB() as nat);
+    lemma_open_closed(body, 0, arg, l);
+}
+
+// ---- the definition-group arm of the normaliser --------------------------------------------------------
+// the children of what is left of a group after its first i definitions have been substituted
+pub open spec fn group_kids<'a>(defs: Seq<(&'a str, Rc<Term<'a>>, Rc<Term<'a>>)>, i: int, b: STerm) -> Seq<STerm> {
+    let m = defs.len() - i;
+    Seq::new((2 * m + 1) as nat, |k: int|
+        if k < m { view(*defs[i + k].1) } else if k < 2 * m { view(*defs[i + k - m].2) } else { b })
+}
+
+// everything the unfolding of the first definition of a group needs and yields (preconditions of the real
+// shift/open calls, overflow guard and closedness of the results)
+pub proof fn lemma_unfold_facts(a: STerm, d: STerm, m: nat, l: nat)
+    requires
+        m >= 1, m < HB(), l < HB(),
+        s_ok(a, 0, HB() as nat), s_ok(d, 0, HB() as nat),
+        s_closed_at(a, l + m), s_closed_at(d, l + m),
+    ensures
+        ({
+            let v = STerm::Var(0);
+            let a_s = s_raise(a, 1);
+            let d_s = s_raise(d, 1);
+            let a1 = s_open(a_s, m, v, 0);
+            let d1 = s_open(d_s, m, v, 0);
+            let w = STerm::Node(Kind::Let, s3(a1, d1, v));
+            let u = s_open(d, (m - 1) as nat, w, 0);
+            &&& s_ok(a, 0, BOUND() as nat) && s_ok(d, 0, BOUND() as nat)
+            &&& s_shift(a, 0, 1) == Some(a_s) && s_shift(d, 0, 1) == Some(d_s)
+            &&& s_ok(a_s, m, BOUND() as nat) && s_ok(a_s, 0, BOUND() as nat)
+            &&& s_ok(d_s, m, BOUND() as nat) && s_ok(d_s, 0, BOUND() as nat)
+            &&& s_ok(v, 0, BOUND() as nat)
+            &&& s_ok(w, 0, BOUND() as nat) && s_closed_at(w, (l + m - 1) as nat)
+            &&& s_ok(d, (m - 1) as nat, BOUND() as nat)
+            &&& s_ok(u, 0, BOUND() as nat) && s_closed_at(u, (l + m - 1) as nat)
+        }),
+{
+    let hb = HB() as nat;
+    let bb = BOUND() as nat;
+    let v = STerm::Var(0);
+    let cm = l + m;
+    let c1 = (cm - 1) as nat;
+    lemma_ok_weaken(a, 0, hb, 0, bb);
+    lemma_ok_weaken(d, 0, hb, 0, bb);
+    lemma_ok_shift(a, 0, hb, 0, 1);
+    lemma_ok_shift(d, 0, hb, 0, 1);
+    let a_s = s_raise(a, 1);
+    let d_s = s_raise(d, 1);
+    lemma_ok_lift(a_s, 0, hb + 1, m);
+    lemma_ok_lift(d_s, 0, hb + 1, m);
+    lemma_ok_weaken(a_s, m, hb + 1 + m, m, bb);
+    lemma_ok_weaken(d_s, m, hb + 1 + m, m, bb);
+    lemma_ok_weaken(a_s, 0, hb + 1, 0, bb);
+    lemma_ok_weaken(d_s, 0, hb + 1, 0, bb);
+    lemma_ok_var(0, 0, 1);
+    lemma_ok_var(0, 0, bb);
+    lemma_ok_var(0, 1, bb);
+    lemma_ok_open(a_s, 0, hb + 1, m, v, 1, 0, 0);
+    lemma_ok_open(d_s, 0, hb + 1, m, v, 1, 0, 0);
+    let a1 = s_open(a_s, m, v, 0);
+    let d1 = s_open(d_s, m, v, 0);
+    let b1 = 2 * (hb + 1) + 1;
+    lemma_ok_lift(a1, 0, b1, 1);
+    lemma_ok_lift(d1, 0, b1, 1);
+    lemma_ok_weaken(a1, 1, b1 + 1, 1, bb);
+    lemma_ok_weaken(d1, 1, b1 + 1, 1, bb);
+    lemma_ok3(Kind::Let, a1, d1, v, 0, bb);
+    let w = STerm::Node(Kind::Let, s3(a1, d1, v));
+    // closedness (same argument as lemma_let_subst_closed)
+    lemma_ok_hole_free(a, 0, hb);
+    lemma_ok_hole_free(d, 0, hb);
+    lemma_var0_closed(cm);
+    lemma_raise_closed(a, cm);
+    lemma_raise_closed(d, cm);
+    lemma_open_closed(a_s, m, v, cm);
+    lemma_open_closed(d_s, m, v, cm);
+    lemma_open_hole_free(a_s, m, v, 0);
+    lemma_open_hole_free(d_s, m, v, 0);
+    let wk = s3(a1, d1, v);
+    lemma_hole_free_kids(Kind::Let, wk);
+    lemma_closed_kids(Kind::Let, wk, c1);
+    assert forall|i: int| 0 <= i < wk.len() implies s_hole_free(#[trigger] wk[i]) && s_closed_at(wk[i], c1 + binds(Kind::Let, wk.len(), i)) by {
+        assert(binds(Kind::Let, 3, i) == 1);
+        assert(i == 0 || i == 1 || i == 2);
+    }
+    // u = d[x_0 := w]
+    lemma_ok_lift(d, 0, hb, (m - 1) as nat);
+    lemma_ok_weaken(d, (m - 1) as nat, hb + (m - 1) as nat, (m - 1) as nat, bb);
+    // the bound of w, computed with room: kids at cutoff 1 below b1 + 1
+    lemma_ok3(Kind::Let, a1, d1, v, 0, b1 + 1);
+    lemma_ok_var(0, 1, b1 + 1);
+    lemma_ok_open(d, 0, hb, (m - 1) as nat, w, b1 + 1, 0, 0);
+    let u = s_open(d, (m - 1) as nat, w, 0);
+    lemma_ok_weaken(u, 0, 2 * hb + b1 + 1, 0, bb);
+    lemma_open_closed(d, (m - 1) as nat, w, c1);
+}
+
+// substituting the unfolded first definition into one remaining piece of the group
+pub proof fn lemma_subst_piece(p: STerm, m: nat, u: STerm, l: nat)
+    requires
+        m >= 1, m < HB(),
+        s_ok(p, 0, HB() as nat), s_closed_at(p, l + m),
+        s_ok(u, 0, HB() as nat), s_closed_at(u, (l + m - 1) as nat),
+    ensures
+        s_ok(p, (m - 1) as nat, BOUND() as nat), s_ok(p, 0, BOUND() as nat), s_ok(u, 0, BOUND() as nat),
+        s_ok(s_open(p, (m - 1) as nat, u, 0), 0, BOUND() as nat),
+        s_closed_at(s_open(p, (m - 1) as nat, u, 0), (l + m - 1) as nat),
+{
+    let hb = HB() as nat;
+    let bb = BOUND() as nat;
+    lemma_ok_weaken(p, 0, hb, 0, bb);
+    lemma_ok_weaken(u, 0, hb, 0, bb);
+    lemma_ok_lift(p, 0, hb, (m - 1) as nat);
+    lemma_ok_weaken(p, (m - 1) as nat, hb + (m - 1) as nat, (m - 1) as nat, bb);
+    lemma_ok_open(p, 0, hb, (m - 1) as nat, u, hb, 0, 0);
+    lemma_ok_weaken(s_open(p, (m - 1) as nat, u, 0), 0, 3 * hb, 0, bb);
+    lemma_ok_hole_free(p, 0, hb);
+    lemma_ok_hole_free(u, 0, hb);
+    lemma_open_closed(p, (m - 1) as nat, u, (l + m - 1) as nat);
+}
+
+// one round of the normaliser's loop is one unfolding step of the reference relation
+pub proof fn lemma_group_step(kids: Seq<STerm>, kids2: Seq<STerm>, m: nat)
+    requires
+        m >= 1, kids.len() == 2 * m + 1, kids2.len() == 2 * m - 1,
+        forall|j: int| 0 <= j < 2 * m - 1 ==> #[trigger] kids2[j] == s_open(kids[if j < m - 1 { j + 1 } else { j + 2 }], (m - 1) as nat, s_unfolded(kids, m), 0),
+    ensures
+        s_rr(STerm::Node(Kind::Let, kids), STerm::Node(Kind::Let, kids2)),
+{
+    lemma_root_let(kids);
+    assert(((kids.len() - 1) / 2) as nat == m);
+    assert(s_let_subst(kids, m)->Node_1 =~= kids2);
+}
+
+// every annotation and definition of defs[from..to) is well formed (small bound) and closed at c
+pub open spec fn pieces_ok<'a>(defs: Seq<(&'a str, Rc<Term<'a>>, Rc<Term<'a>>)>, from: int, to: int, c: nat) -> bool {
+    forall|q: int| from <= q < to ==> {
+        &&& s_ok(view(*(#[trigger] defs[q]).1), 0, HB() as nat)
+        &&& s_ok(view(*defs[q].2), 0, HB() as nat)
+        &&& s_closed_at(view(*defs[q].1), c)
+        &&& s_closed_at(view(*defs[q].2), c)
+    }
+}
+
+// defs[from..to) are the corresponding elements of pre with x := u substituted at index j
+pub open spec fn pieces_subst<'a>(defs: Seq<(&'a str, Rc<Term<'a>>, Rc<Term<'a>>)>, pre: Seq<(&'a str, Rc<Term<'a>>, Rc<Term<'a>>)>, from: int, to: int, j: nat, u: STerm) -> bool {
+    forall|q: int| from <= q < to ==> {
+        &&& view(*(#[trigger] defs[q]).1) == s_open(view(*pre[q].1), j, u, 0)
+        &&& view(*defs[q].2) == s_open(view(*pre[q].2), j, u, 0)
+    }
+}
